@@ -2,6 +2,8 @@
 
   ./check selftest determinism [C14|C17|C19]   same seed twice, different worker counts and
                                                interpreter hash seeds -> identical batch digests
+  ./check selftest known [C14|C17|C19]         a re-opened defect listed as open finding -> KNOWN-FINDING, exit 0;
+                                               plus an unrelated change -> VIOLATION, exit 1
   ./check selftest mutants [C14|C17|C19] [--with-tests] [--only id]
                                                each mutant applied to a scratch copy of /repo must
                                                make the quick tier print a VIOLATION
@@ -130,6 +132,69 @@ def mutants(props, with_tests=False, only=None):
     return K.EXIT_OK if not missed else K.EXIT_HARNESS
 
 
+KNOWN_CASES = [
+    # (property, mutant that re-opens a repaired defect, open entry describing it, a second unrelated mutant)
+    ("C19", "c19-revert-odeint-pywrap",
+     {"id": "selftest-c19", "property": "C19", "status": "open", "what": "odeint PyWrapSolve returns normally although Solve failed",
+      "match": {"variant": "odeint", "clause": "budget-exceeded-reported-as-success", "mode": 1}},
+     "c19-no-remaining-time", {"id": "selftest-c19b", "property": "C19", "status": "open", "what": "same, other clause",
+                               "match": {"variant": "odeint", "clause": "success-without-exact-interval", "mode": 1}}),
+    ("C14", "c14-revert-extend-option",
+     {"id": "selftest-c14", "property": "C14", "status": "open", "what": "naunet extend always raises CleoValueError",
+      "match": {"kind": "extend", "clause": "extend-raised"}},
+     "c14-remove-instance-first-only", None),
+    ("C17", "c17-revert-cli-restore",
+     {"id": "selftest-c17", "property": "C17", "status": "open", "what": "naunet render leaves its tables installed",
+      "channel": "cli-tables"},
+     "c17-krome-vars-not-reset", None),
+]
+
+
+def known(props):
+    """An open known finding is printed as KNOWN-FINDING and does not fail the check; a different
+    violation of the same property (a second, unrelated mutant) is still reported."""
+    ev_backup = {}
+    for prop in ("C14", "C17", "C19"):
+        path = os.path.join(K.VERIF, "evidence", f"{prop}.json")
+        ev_backup[prop] = open(path).read() if os.path.exists(path) else None
+    rep_before = set(os.listdir(os.path.join(K.VERIF, "replays")))
+    bad = 0
+    byid = {m["id"]: m for m in MUTANTS}
+    try:
+        for prop, mid, entry, other, entry2 in KNOWN_CASES:
+            if prop not in props:
+                continue
+            kf = os.path.join(K.scratch_root(), f"known-{prop}.json")
+            json.dump({"findings": [e for e in (entry, entry2) if e]}, open(kf, "w"))
+            for stage, muts, want_rc, want_known, want_viol in (("finding only", [mid], 0, True, False),
+                                                                  ("finding + other change", [mid, other], 1, True, True)):
+                copy = os.path.join(K.scratch_root(), f"known-copy-{prop}")
+                shutil.rmtree(copy, ignore_errors=True)
+                make_copy(copy)
+                try:
+                    for m in muts:
+                        apply_mutant(copy, byid[m])
+                    env = dict(SMALL[prop], NAUNET_REPO=copy, VERIF_KNOWN_FINDINGS_FILE=kf)
+                    rc, out, err = run_check(prop, env)
+                    has_known = any(ln.startswith("KNOWN-FINDING: property=" + prop) for ln in out.splitlines())
+                    has_viol = any(ln.startswith("VIOLATION property=" + prop) for ln in out.splitlines())
+                    ok = rc == want_rc and has_known == want_known and has_viol == want_viol
+                    print(f"known {prop} [{stage}]: {'OK' if ok else 'WRONG'} rc={rc} KNOWN-FINDING={has_known} VIOLATION={has_viol}", flush=True)
+                    if not ok:
+                        bad += 1
+                        print(out[-1500:], err[-800:])
+                finally:
+                    shutil.rmtree(copy, ignore_errors=True)
+    finally:
+        for prop, txt in ev_backup.items():
+            path = os.path.join(K.VERIF, "evidence", f"{prop}.json")
+            if txt is not None:
+                open(path, "w").write(txt)
+        for f in set(os.listdir(os.path.join(K.VERIF, "replays"))) - rep_before:
+            os.remove(os.path.join(K.VERIF, "replays", f))
+    return K.EXIT_OK if bad == 0 else K.EXIT_HARNESS
+
+
 def main(argv):
     if not argv:
         print(__doc__)
@@ -137,6 +202,8 @@ def main(argv):
     props = [a for a in argv[1:] if a in ("C14", "C17", "C19")] or ["C14", "C17", "C19"]
     if argv[0] == "determinism":
         return determinism(props)
+    if argv[0] == "known":
+        return known(props)
     if argv[0] == "mutants":
         only = None
         if "--only" in argv:
